@@ -162,6 +162,8 @@ class Ctx:
     exc: Callable
     brk: Callable | None = None
     cont: Callable | None = None
+    retty: Callable | None = None  # () -> type of what `return` returns here (a method, or a helper being inlined)
+    chain: tuple = ()  # helpers being inlined around this code (lexically)
 
 
 @dataclass
@@ -341,25 +343,34 @@ class EvalTranslator:
         return v
 
     # ------------------------------------------------------------ methods
+    def params_of(self, name: str) -> list:
+        fn = self.info.methods[name]
+        a = fn.args
+        decos = [ast.unparse(d) for d in fn.decorator_list]
+        if a.vararg or a.kwarg or a.kwonlyargs or a.posonlyargs or a.defaults or decos not in ([], ["staticmethod"]):
+            raise Unsupported(f"{name}: unsupported signature")
+        if decos:
+            return list(a.args)
+        if not a.args or a.args[0].arg != "self":
+            raise Unsupported(f"{name}: not an instance method")
+        return list(a.args[1:])
+
     def method(self, name: str) -> Method:
         if name in self.done:
             return self.done[name]
         if name in self.in_progress:
             raise Unsupported(f"recursive method {name}")
         fn = self.info.methods[name]
-        a = fn.args
-        if a.vararg or a.kwarg or a.kwonlyargs or a.posonlyargs or a.defaults or fn.decorator_list:
-            raise Unsupported(f"{name}: unsupported signature")
-        if not a.args or a.args[0].arg != "self":
-            raise Unsupported(f"{name}: not an instance method")
-        params = [(p.arg, lean_ident(p.arg), ann_type(p.annotation, f"{name}({p.arg})")) for p in a.args[1:]]
+        # canonical Lean names: the text does not depend on how the Python parameters are called
+        params = [(p.arg, f"p{i + 1}", ann_type(p.annotation, f"{name}({p.arg})"))
+                  for i, p in enumerate(self.params_of(name))]
         m = Method(fn, method_lean_name(name), params, ann_type(fn.returns, f"{name} result"))
         saved = (self.cur, self.counter, self.loops)
         self.in_progress.append(name)
         self.cur, self.counter, self.loops = m, 0, 0
         env = Env(vars=tuple((py, Val(ln, ty)) for py, ln, ty in params), st="s0")
         ctx = Ctx(ret=lambda v, e: Leaf(f".ok {atom(self.coerce(self.narrowed(v, e), m.retty))} {e.st}"),
-                  exc=lambda k, e: Leaf(f".exc {k} {e.st}"))
+                  exc=lambda k, e: Leaf(f".exc {k} {e.st}"), retty=lambda: m.retty)
         body = self.stmts(fn.body, env, ctx, lambda e: ctx.ret(NONE, e))
         sig = "".join(f" ({ln} : {pty(ty)})" for _, ln, ty in params)
         self.defs.append(f"/-- `{CLASS}.{name}`. -/\ndef {m.lean} (f : List (Option Rat) → Option Rat){sig} "
@@ -368,6 +379,19 @@ class EvalTranslator:
         self.cur, self.counter, self.loops = saved
         self.done[name] = m
         return m
+
+    def inline(self, name: str, bound: list, env: Env, ctx: Ctx, k: Callable):
+        """A call of a helper method: its body in place of the call (arguments bound to the parameters, `return v`
+        continues the caller with `v`, falling off the end with None, raises propagate to the caller).  Its loops are
+        functions of their own as everywhere else."""
+        if name in ctx.chain or name in self.in_progress:
+            raise Unsupported(f"recursive method {name}")
+        fn = self.info.methods[name]
+        back = lambda e: replace(env, st=e.st, narrowed=e.narrowed)  # noqa: E731
+        callee_ctx = Ctx(ret=lambda v, e: k(v, back(e)), exc=lambda kind, e: ctx.exc(kind, back(e)),
+                         retty=lambda: ann_type(fn.returns, f"{name} result"), chain=ctx.chain + (name,))
+        callee_env = Env(vars=tuple(bound), st=env.st, narrowed=env.narrowed)
+        return self.stmts(fn.body, callee_env, callee_ctx, lambda e: k(NONE, back(e)))
 
     # ------------------------------------------------------------ statements
     def stmts(self, stmts: list, env: Env, ctx: Ctx, k: Callable):
@@ -394,9 +418,6 @@ class EvalTranslator:
         if isinstance(s, ast.AnnAssign) and s.value is not None:
             return self.assign(s.target, s.value, s.annotation, env, ctx, nxt)
         if isinstance(s, ast.If):
-            skip = self.stack_guard(s, env)
-            if skip:
-                return nxt(env)
             return self.cond(s.test, env, ctx,
                              lambda e: self.stmts(s.body, e, ctx, nxt),
                              lambda e: self.stmts(s.orelse, e, ctx, nxt))
@@ -406,6 +427,9 @@ class EvalTranslator:
             if (s.cause is None and isinstance(s.exc, ast.Call) and isinstance(s.exc.func, ast.Name)
                     and s.exc.func.id == "RuntimeError"):
                 return ctx.exc(".runtime", env)
+            if (s.cause is None and isinstance(s.exc, ast.Call) and isinstance(s.exc.func, ast.Name)
+                    and s.exc.func.id in ("AssertionError", "StopIteration", "KeyError", "ValueError")):
+                return ctx.exc(".fault", env)  # "anything else than RuntimeError"
             raise Unsupported(f"raise {ast.unparse(s.exc) if s.exc else ''}")
         if isinstance(s, ast.For):
             return self.for_(s, env, ctx, nxt)
@@ -421,19 +445,22 @@ class EvalTranslator:
             return ctx.cont(env)
         raise Unsupported(f"statement {type(s).__name__} (line {getattr(s, 'lineno', '?')})")
 
-    def stack_guard(self, s: ast.If, env: Env) -> bool:
-        """`if len(<stack>) != 1: raise RuntimeError(…)` — the formula's business."""
-        t = s.test
-        if not (isinstance(t, ast.Compare) and len(t.ops) == 1 and isinstance(t.ops[0], ast.NotEq)
-                and isinstance(t.left, ast.Call) and isinstance(t.left.func, ast.Name) and t.left.func.id == "len"
-                and len(t.left.args) == 1 and isinstance(t.left.args[0], ast.Name)
-                and isinstance(t.comparators[0], ast.Constant) and t.comparators[0].value == 1):
-            return False
-        if not (env.has(t.left.args[0].id) and env.get(t.left.args[0].id).ty == "Stack"):
-            return False
-        if s.orelse or len(s.body) != 1 or not isinstance(s.body[0], ast.Raise):
-            raise Unsupported("stack length guard with something else than a single raise")
-        return True
+    def stack_len_test(self, t: ast.expr, env: Env):
+        """`len(<stack>) == 1` / `!= 1` -> "eq" / "ne": whether the formula left exactly one value is the formula's
+        business (C05); the translation follows the path where it did, after checking that the other path does nothing
+        but `raise RuntimeError(…)`."""
+        if not (isinstance(t, ast.Compare) and len(t.ops) == 1 and isinstance(t.ops[0], (ast.NotEq, ast.Eq))):
+            return None
+        a, b = t.left, t.comparators[0]
+        if isinstance(a, ast.Constant):
+            a, b = b, a
+        if not (isinstance(a, ast.Call) and isinstance(a.func, ast.Name) and a.func.id == "len" and len(a.args) == 1
+                and not a.keywords and isinstance(a.args[0], ast.Name) and isinstance(b, ast.Constant) and b.value == 1
+                and type(b.value) is int):
+            return None
+        if not (env.has(a.args[0].id) and env.get(a.args[0].id).ty == "Stack"):
+            return None
+        return "eq" if isinstance(t.ops[0], ast.Eq) else "ne"
 
     def assign(self, tgt, value, ann, env: Env, ctx: Ctx, nxt: Callable):
         if isinstance(tgt, ast.Name):
@@ -529,19 +556,19 @@ class EvalTranslator:
         body_nodes = list(s.body) + ([s.test] if isinstance(s, ast.While) else [])
         assigned = assigned_names(s.body) + [x for x in extra_assigned]
         carried = [(py, v) for py, v in env.vars if py in assigned]
-        cparams = [(py, lean_ident(py), WIDEN.get(v.ty, v.ty)) for py, v in carried]
+        cparams = [(py, f"k{i + 1}", WIDEN.get(v.ty, v.ty)) for i, (py, v) in enumerate(carried)]
         for py, _, ty in cparams:
             if ty in ("None", "EmptyList"):
                 raise Unsupported(f"loop-carried local {py} has no definite type")
         read = loaded_names(body_nodes)
-        params = [(py, lean_ident(py), v.ty) for py, v in env.vars
-                  if py in read and py not in assigned and v.ty not in ("None", "EmptyList")]
+        params = [(py, v.ty) for py, v in env.vars
+                  if py in read and py not in assigned and v.ty not in ("None", "EmptyList", "FetchTasks")]
+        params = [(py, f"a{i + 1}", ty) for i, (py, ty) in enumerate(params)]
         return name, carried, cparams, params
 
-    def flow_ty(self, cparams) -> str:
-        assert self.cur is not None
+    def flow_ty(self, cparams, ctx: Ctx) -> str:
         c = " × ".join(pty(ty) if " " not in pty(ty) else f"({pty(ty)})" for _, _, ty in cparams) if cparams else "Unit"
-        return f"(Flow {LEAN_TY[self.cur.retty]} ({c}))"
+        return f"(Flow {LEAN_TY[ctx.retty()]} ({c}))"
 
     @staticmethod
     def tuple_of(terms: list[str]) -> str:
@@ -550,7 +577,7 @@ class EvalTranslator:
     def finish_loop(self, s, name, head: str, body_text: str, env: Env, ctx: Ctx, nxt: Callable, call: str,
                     cparams, what: str):
         assert self.cur is not None
-        text = (f"/-- the `{what}` loop at line {s.lineno} of `{self.cur.fn.name}`. -/\n{head}\n{body_text}\n")
+        text = (f"/-- a `{what}` loop of `{self.cur.fn.name}`. -/\n{head}\n{body_text}\n")
         key = text.replace(name, "<loop>")
         if key in self.loop_defs:
             call = call.replace(name, self.loop_defs[key])
@@ -567,13 +594,12 @@ class EvalTranslator:
         return Match(call, [
             (".block", Leaf(".block")),
             (f".exc {ek} {s1}", ctx.exc(ek, env.state(s1))),
-            (f".ok (.ret {rv}) {s1}", ctx.ret(Val(rv, self.cur.retty), env.state(s1))),
+            (f".ok (.ret {rv}) {s1}", ctx.ret(Val(rv, ctx.retty()), env.state(s1))),
             (f".ok (.next {self.tuple_of(news)}) {s1}", nxt(e_after)),
         ])
 
     def loop_ctx(self, ctx: Ctx, cparams, again: Callable) -> Ctx:
-        assert self.cur is not None
-        retty = self.cur.retty
+        retty = ctx.retty()
 
         def carried_terms(e: Env) -> list[str]:
             return [atom(self.coerce(self.narrowed(e.get(py), e), ty)) for py, _, ty in cparams]
@@ -581,7 +607,8 @@ class EvalTranslator:
         def done(e: Env):
             return Leaf(f".ok (.next {self.tuple_of(carried_terms(e))}) {e.st}")
         return Ctx(ret=lambda v, e: Leaf(f".ok (.ret {atom(self.coerce(self.narrowed(v, e), retty))}) {e.st}"),
-                   exc=lambda k, e: Leaf(f".exc {k} {e.st}"), brk=done, cont=again), done, carried_terms
+                   exc=lambda k, e: Leaf(f".exc {k} {e.st}"), brk=done, cont=again, retty=ctx.retty,
+                   chain=ctx.chain), done, carried_terms
 
     def for_(self, s: ast.For, env: Env, ctx: Ctx, nxt: Callable):
         if s.orelse:
@@ -626,7 +653,7 @@ class EvalTranslator:
                 pass
             saved = self.counter
             self.counter = 0
-            tl = [lean_ident(t) for t in tnames]
+            tl = [f"t{i + 1}" for i in range(len(tnames))]
             inner = Env(vars=tuple((py, Val(ln, ty)) for py, ln, ty in params)
                         + tuple((py, Val(ln, ty)) for py, ln, ty in cparams), st="s0")
             for t, l_, ty in zip(tnames, tl, ttys):
@@ -642,7 +669,7 @@ class EvalTranslator:
             pat = tl[0] if len(tl) == 1 else "(" + ", ".join(tl) + ")"
             elem = {"Tasks": "ATask Sample", "Names": "Nat", "Dict": "Int × List Nat"}[itv.ty]
             head = (f"def {name} (f : List (Option Rat) → Option Rat){psig} (xs_ : List ({elem})){csig} "
-                    f"(s0 : EvSt Sample) : EOut Sample {self.flow_ty(cparams)} :=")
+                    f"(s0 : EvSt Sample) : EOut Sample {self.flow_ty(cparams, ctx)} :=")
             nil_env = Env(vars=tuple((py, Val(ln, ty)) for py, ln, ty in cparams), st="s0")
             body_text = (f"  match xs_ with\n  | [] =>\n{render(done(nil_env), '    ')}\n"
                          f"  | {pat} :: rest_ =>\n{render(body, '    ')}")
@@ -673,7 +700,7 @@ class EvalTranslator:
         lctx, done, terms = self.loop_ctx(ctx, cparams, again)
         body = self.cond(s.test, inner, lctx, lambda e: self.stmts(s.body, e, lctx, again), done)
         head = (f"def {name} (f : List (Option Rat) → Option Rat){psig} (fuel_ : Nat){csig} "
-                f"(s0 : EvSt Sample) : EOut Sample {self.flow_ty(cparams)} :=")
+                f"(s0 : EvSt Sample) : EOut Sample {self.flow_ty(cparams, ctx)} :=")
         body_text = f"  match fuel_ with\n  | 0 => .block\n  | fuel + 1 =>\n{render(body, '    ')}"
         self.counter = saved
         cargs = "".join(" " + atom(self.coerce(self.narrowed(v, env), ty)) for (_, v), (_, _, ty) in zip(carried, cparams))
@@ -696,6 +723,13 @@ class EvalTranslator:
             if n.value is False:
                 return k(FALSE, env)
             raise Unsupported(f"constant {n.value!r}")
+        if isinstance(n, ast.ListComp):
+            if self.is_fetch_tasks(n):
+                # creating the tasks has no effect of its own here: they run (and are awaited) in `asyncio.wait`
+                return k(Val("<the fetch tasks>", "FetchTasks"), env)
+            raise Unsupported(f"comprehension {ast.unparse(n)[:60]}")
+        if isinstance(n, ast.IfExp):
+            return self.cond(n.test, env, ctx, lambda e: self.ev(n.body, e, ctx, k), lambda e: self.ev(n.orelse, e, ctx, k))
         if isinstance(n, ast.List) and not n.elts:
             return k(EMPTY, env)
         if isinstance(n, ast.List) and len(n.elts) == 1:
@@ -742,35 +776,27 @@ class EvalTranslator:
                                   (f"some {x}", k(Val(f"{x}.ts", "Int"), env.narrow(v.term, Val(x, "Sample"))))])
         raise Unsupported(f".timestamp of a {v.ty}")
 
-    def is_gather(self, n: ast.Call) -> bool:
-        """asyncio.wait([asyncio.create_task(F.fetch_next(), name=N) for N, F in self.<fetchers>.items()],
-        return_when=asyncio.ALL_COMPLETED)"""
-        if ast.unparse(n.func) != "asyncio.wait":
-            return False
-        if len(n.args) != 1 or len(n.keywords) != 1 or n.keywords[0].arg != "return_when":
-            raise Unsupported("asyncio.wait: arguments")
-        if ast.unparse(n.keywords[0].value) != "asyncio.ALL_COMPLETED":
-            raise Unsupported("asyncio.wait does not wait for ALL_COMPLETED")
-        lc = n.args[0]
+    def is_fetch_tasks(self, lc: ast.expr) -> bool:
+        """[asyncio.create_task(F.fetch_next(), name=N) for N, F in self.<fetchers>.items()]"""
         if not (isinstance(lc, ast.ListComp) and len(lc.generators) == 1):
-            raise Unsupported("asyncio.wait: not a list comprehension")
+            return False
         g = lc.generators[0]
         if g.ifs or g.is_async:
-            raise Unsupported("asyncio.wait: filtered comprehension")
+            raise Unsupported("task list: filtered comprehension")
         it = g.iter
         if not (isinstance(it, ast.Call) and isinstance(it.func, ast.Attribute) and it.func.attr == "items"
                 and not it.args and self.self_field(it.func.value) == "fetchers"):
-            raise Unsupported("asyncio.wait: not over the items of the fetcher dict")
+            raise Unsupported("task list: not over the items of the fetcher dict")
         if not (isinstance(g.target, ast.Tuple) and len(g.target.elts) == 2
                 and all(isinstance(e, ast.Name) for e in g.target.elts)):
-            raise Unsupported("asyncio.wait: comprehension target")
+            raise Unsupported("task list: comprehension target")
         nm, ft = (e.id for e in g.target.elts)
         e = lc.elt
         ok = (isinstance(e, ast.Call) and ast.unparse(e.func) == "asyncio.create_task" and len(e.args) == 1
               and len(e.keywords) == 1 and e.keywords[0].arg == "name" and isinstance(e.keywords[0].value, ast.Name)
               and e.keywords[0].value.id == nm and ast.unparse(e.args[0]) == f"{ft}.fetch_next()")
         if not ok:
-            raise Unsupported("asyncio.wait: the tasks are not `create_task(<fetcher>.fetch_next(), name=<its name>)`")
+            raise Unsupported("task list: the tasks are not `create_task(<fetcher>.fetch_next(), name=<its name>)`")
         return True
 
     def call(self, n: ast.Call, awaited: bool, env: Env, ctx: Ctx, k: Callable):
@@ -780,12 +806,35 @@ class EvalTranslator:
         if isinstance(f, ast.Attribute) and ast.unparse(f) == "asyncio.wait":
             if not awaited:
                 raise Unsupported("asyncio.wait without await")
-            self.is_gather(n)
-            r, p, s1 = self.fresh("x"), self.fresh("x"), self.fresh("s")
-            return Match(f"Pull.gather {env.st}", [
-                (".block", Leaf(".block")),
-                (f".got {r} {p} {s1}", k((Val(r, "Tasks"), Val(p, "Tasks")), env.state(s1)))])
+            if len(n.args) != 1 or len(n.keywords) != 1 or n.keywords[0].arg != "return_when":
+                raise Unsupported("asyncio.wait: arguments")
+            if ast.unparse(n.keywords[0].value) != "asyncio.ALL_COMPLETED":
+                raise Unsupported("asyncio.wait does not wait for ALL_COMPLETED")
+
+            def wait(tv, e: Env):
+                if not (isinstance(tv, Val) and tv.ty == "FetchTasks"):
+                    raise Unsupported("asyncio.wait: not on the list of `create_task(<fetcher>.fetch_next(), name=…)`")
+                r, p, s1 = self.fresh("x"), self.fresh("x"), self.fresh("s")
+                return Match(f"Pull.gather {e.st}", [
+                    (".block", Leaf(".block")),
+                    (f".got {r} {p} {s1}", k((Val(r, "Tasks"), Val(p, "Tasks")), e.state(s1)))])
+            return self.ev(n.args[0], env, ctx, wait)
         if isinstance(f, ast.Name):
+            if f.id == "Sample" and len(n.args) + len(n.keywords) == 2:
+                by_name = dict(zip(["timestamp", "value"], n.args))
+                for kw in n.keywords:
+                    if kw.arg in by_name or kw.arg not in ("timestamp", "value"):
+                        raise Unsupported(f"call {ast.unparse(n)}")
+                    by_name[kw.arg] = kw.value
+                order = list(n.args) + [kw.value for kw in n.keywords]  # Python evaluates in source order
+
+                def mk(i: int, got: dict, e: Env):
+                    if i < len(order):
+                        key = next(kk for kk, vv in by_name.items() if vv is order[i])
+                        return self.ev(order[i], e, ctx, lambda v, e2: mk(i + 1, {**got, key: v}, e2))
+                    return k(Val(f"⟨{self.coerce(got['timestamp'], 'Int')}, {self.coerce(got['value'], 'Res')}⟩",
+                                 "Sample"), e)
+                return mk(0, {}, env)
             if n.keywords:
                 raise Unsupported(f"call {ast.unparse(n)}")
             if f.id == "iter" and len(n.args) == 1:
@@ -810,7 +859,7 @@ class EvalTranslator:
                     return Match(f"Dict.maxKey {atom(v.term)}", [("none", ctx.exc(".fault", e)),
                                                                   (f"some {x}", k(Val(x, "Int"), e))])
                 return self.ev(a, env, ctx, mx)
-            if f.id == "any" and len(n.args) == 1 and isinstance(n.args[0], ast.GeneratorExp):
+            if f.id in ("any", "all") and len(n.args) == 1 and isinstance(n.args[0], ast.GeneratorExp):
                 g = n.args[0]
                 if len(g.generators) != 1 or g.generators[0].ifs or g.generators[0].is_async \
                         or not isinstance(g.generators[0].target, ast.Name):
@@ -821,17 +870,11 @@ class EvalTranslator:
                     v = self.expect(v, ("Tasks",))
                     x = self.fresh("x")
                     body = self.pure_bool(g.elt, {var: Val(x, ELEM[v.ty])})
-                    return k(Val(f"({atom(v.term)}.any (fun {x} => {body}))", "Bool"), e)
+                    return k(Val(f"({atom(v.term)}.{f.id} (fun {x} => {body}))", "Bool"), e)
                 return self.ev(g.generators[0].iter, env, ctx, anyv)
             if f.id in ("isnan", "isinf") and len(n.args) == 1:
                 return self.ev(n.args[0], env, ctx, lambda v, e: k(
                     Val(f"decide ({self.coerce(self.expect(v, ('Res',)), 'Res')} = none)", "Bool"), e))
-            if f.id == "Sample" and len(n.args) == 2:
-                def mk(t: Val, e: Env):
-                    def mk2(v: Val, e2: Env):
-                        return k(Val(f"⟨{self.coerce(t, 'Int')}, {self.coerce(v, 'Res')}⟩", "Sample"), e2)
-                    return self.ev(n.args[1], e, ctx, mk2)
-                return self.ev(n.args[0], env, ctx, mk)
             raise Unsupported(f"call {ast.unparse(n)}")
         if not isinstance(f, ast.Attribute):
             raise Unsupported(f"call {ast.unparse(f)}")
@@ -846,17 +889,22 @@ class EvalTranslator:
             fn = self.info.methods[f.attr]
             if isinstance(fn, ast.AsyncFunctionDef) != awaited:
                 raise Unsupported(f"self.{f.attr}: await/async mismatch")
-            names = [a.arg for a in fn.args.args[1:]]
+            names = [a.arg for a in self.params_of(f.attr)]
             if len(n.args) > len(names):
                 raise Unsupported("too many arguments")
             exprs = list(zip(names, n.args)) + [(kw.arg, kw.value) for kw in n.keywords]
             if sorted(p for p, _ in exprs) != sorted(names):
                 raise Unsupported(f"arguments of self.{f.attr}")
+            inline = f.attr not in REQUIRED  # helpers are inlined; the methods the tie talks about are functions
 
             def args_then(i: int, got: list, e: Env):
                 if i < len(exprs):
                     return self.ev(exprs[i][1], e, ctx, lambda v, e2: args_then(i + 1, got + [(exprs[i][0], v)], e2))
                 bound = dict(got)
+                if any(not isinstance(v, Val) for v in bound.values()):
+                    raise Unsupported("a tuple passed as an argument")
+                if inline:
+                    return self.inline(f.attr, [(p, bound[p]) for p in names], e, ctx, k)
                 m = self.method(f.attr)
                 vals = "".join(" " + atom(self.coerce(self.narrowed(bound[py], e), ty)) for py, _, ty in m.params)
                 ek, s1, v1 = self.fresh("e"), self.fresh("s"), self.fresh("v")
@@ -937,6 +985,13 @@ class EvalTranslator:
         if isinstance(n, ast.Compare):
             if len(n.ops) != 1:
                 raise Unsupported("chained comparison")
+            lt = self.stack_len_test(n, env)
+            if lt is not None:
+                good, bad = (kt, kf) if lt == "eq" else (kf, kt)
+                other = bad(env)
+                if not (isinstance(other, Leaf) and other.s.startswith(".exc .runtime ")):
+                    raise Unsupported("the path of a malformed evaluation stack does more than raise RuntimeError")
+                return good(env)
             op, right = n.ops[0], n.comparators[0]
             if isinstance(op, (ast.Is, ast.IsNot)):
                 if not (isinstance(right, ast.Constant) and right.value is None):
